@@ -312,16 +312,26 @@ fn case_new_keyed<C: Ctx2>(outlen_fixed: Option<usize>) {
 
 // ------------------------------------------------------------------------------------------------ update step
 fn case_update_step<C: Ctx2, const MAX: usize>() {
-    let a = arb();
-    let data = Bytes::<MAX>::any();
+    case_update_step_fix::<C, MAX>(None);
+}
+/// `fix` = Some((pending bytes, input length)): the same step with a CONCRETE shape (contents, chaining value and counter stay
+/// symbolic); cheap enough for the quick tier with 128-byte blocks, where the symbolic-shape step is thorough-only.
+fn case_update_step_fix<C: Ctx2, const MAX: usize>(fix: Option<(usize, usize)>) {
+    let mut a = arb();
+    let mut data = Bytes::<MAX>::any();
+    if let Some((bl, ln)) = fix {
+        a.buflen = bl;
+        data.len = ln;
+    }
     let j: usize = any(); // "for every byte position": one symbolic position (see hash_fixedbuf.rs)
     assume(j < BB);
     let len = data.len;
     let (buf, buflen) = (a.buf, a.buflen);
-    vcover!(len == 0, "empty input");
-    vcover!(buflen > 0 && buflen + len == BB, "buffer becomes exactly full: nothing compressed yet");
-    vcover!(buflen == BB && len == 1, "full pending block is compressed only now");
-    vcover!(buflen + len == 2 * BB + 1, "two blocks compressed, one byte pending");
+    let f = fix.is_some();
+    vcover!(f || len == 0, "empty input");
+    vcover!(f || (buflen > 0 && buflen + len == BB), "buffer becomes exactly full: nothing compressed yet");
+    vcover!(f || (buflen == BB && len == 1), "full pending block is compressed only now");
+    vcover!(f || buflen + len == 2 * BB + 1, "two blocks compressed, one byte pending");
     vcover!(buflen + len > BB && a.t[0] > W::MAX - (BB as W), "low counter word wraps inside the step");
     let mut c: C = mk(&a);
     c_reset();
@@ -553,6 +563,30 @@ pub(crate) fn c01_blake2b_new_keyed_bits() {
     case_new_keyed::<Context<512>>(Some(64));
     case_new_keyed::<Context<256>>(Some(32));
     case_new_keyed::<Context<12>>(Some(2));
+}
+/// quick tier: the update step at concrete shapes around every boundary (exact block multiples, one byte either side, full pending
+/// block, two blocks); the symbolic-shape step is c01_t_blake2b_update_step_*
+fn update_shapes<C: Ctx2>() {
+    case_update_step_fix::<C, 258>(Some((0, 128)));
+    case_update_step_fix::<C, 258>(Some((0, 129)));
+    case_update_step_fix::<C, 258>(Some((1, 127)));
+    case_update_step_fix::<C, 258>(Some((128, 1)));
+    case_update_step_fix::<C, 258>(Some((128, 128)));
+    case_update_step_fix::<C, 258>(Some((5, 251)));
+    case_update_step_fix::<C, 258>(Some((0, 256)));
+    case_update_step_fix::<C, 258>(Some((0, 257)));
+}
+#[cfg_attr(kani, kani::proof)]
+#[cfg_attr(kani, kani::unwind(130))]
+#[cfg_attr(kani, kani::stub(crate::hashing::blake2::EngineB::compress, compress_rec_j))]
+pub(crate) fn c01_blake2b_update_shapes_bits() {
+    update_shapes::<Context<512>>();
+}
+#[cfg_attr(kani, kani::proof)]
+#[cfg_attr(kani, kani::unwind(130))]
+#[cfg_attr(kani, kani::stub(crate::hashing::blake2::EngineB::compress, compress_rec_j))]
+pub(crate) fn c01_blake2b_update_shapes_dyn() {
+    update_shapes::<ContextDyn>();
 }
 #[cfg_attr(kani, kani::proof)]
 #[cfg_attr(kani, kani::unwind(130))]
